@@ -74,7 +74,14 @@ Steps == Scn.steps
 Threaded == "threads" \in DOMAIN Scn
 Threads == IF Threaded THEN Scn.threads ELSE <<>>
 
-InitEng == [db |-> <<>>, nf |-> 1, defs |-> <<>>, vari |-> <<>>, ncalls |-> <<>>]
+BuiltinDef(n) == [kind |-> "builtin", name |-> n]
+InitEng == [db |-> <<>>, nf |-> 1,
+            defs |-> [k \in {"=/2", "\\=/2", "findall/3", "once/1", "assertz/1", "asserta/1", "retract/1", "retractall/1"} |->
+                        <<BuiltinDef(CASE k = "=/2" -> "=" [] k = "\\=/2" -> "\\=" [] k = "findall/3" -> "findall" [] k = "once/1" -> "once"
+                                       [] k = "assertz/1" -> "assertz" [] k = "asserta/1" -> "asserta" [] k = "retract/1" -> "retract"
+                                       [] OTHER -> "retractall")>>],
+            vari |-> [n \in {"call"} |-> BuiltinDef("call")],
+            ncalls |-> <<>>]
 NoCur == [r |-> 0, mode |-> "", left |-> 0, acc |-> <<>>, op |-> <<>>, t |-> 0]
 \* move on in the scenario after an API operation of thread t (t = 0: the `steps` sequence)
 Advance(t) == IF t = 0 THEN pc' = pc + 1 /\ tpc' = tpc
@@ -126,7 +133,7 @@ NextRetract(snap, i, pat, s, nv, db, key) ==
 Push(c, cp) == [c EXCEPT !.cps = Append(@, cp)]
 
 RECURSIVE Backtrack(_), Resume(_,_), TryAlts(_,_), TryDefs(_,_), TryClauses(_,_),
-          TryNative(_,_), TryRetract(_,_)
+          TryNative(_,_), TryRetract(_,_), Builtin(_,_,_,_)
 
 \* DoBacktrack / DoExhausted
 Backtrack(c) ==
@@ -169,8 +176,9 @@ TryDefs(c, cp) ==
        IF def.kind = "prolog"
        THEN TryClauses(c1, [kind |-> "clauses", cls |-> def.cls, i |-> 1, goal |-> cp.goal,
                             barrier |-> barrier, rest |-> cp.rest, s |-> c.s])
-       ELSE LET key == KeyOf(cp.goal)
-                callno == GetN(c1.ncalls, def.fid) + 1
+       ELSE IF def.kind = "builtin"
+       THEN Builtin(c1, def.name, cp.goal, cp.rest)
+       ELSE LET callno == GetN(c1.ncalls, def.fid) + 1
                 c2 == [c1 EXCEPT !.ncalls = Put(@, def.fid, callno),
                                  !.nlog = Append(@, [fid |-> def.fid,
                                                      args |-> CanonSeq([i \in DOMAIN ArgsOf(cp.goal) |-> Resolve(ArgsOf(cp.goal)[i], c.s)])])] IN
@@ -230,47 +238,49 @@ AssertF(c, t, atEnd, rest) ==
   [c EXCEPT !.db = Put(c.db, key, IF atEnd THEN Append(old, fact) ELSE <<fact>> \o old),
             !.nf = @ + 1, !.goals = rest]
 
-Call(c, t, cb, rest) ==
-  IF ~Callable(t) THEN Stop(c, "unspec")
-  ELSE
+\* The engine's builtin predicates.  They are ordinary entries of the engine's definitions (registered
+\* when the engine is created and again by clear()): a script or a registration can overwrite or
+\* extend them like any other definition, and dynamic facts of the same key come first.
+Builtin(c, name, t, rest) ==
   LET args == ArgsOf(t)
-      key == KeyOf(t) IN
-  CASE key = "=/2" ->
+      cb == 0 IN
+  CASE name = "=" ->
          LET r == MGU(args[1], args[2], c.s) IN
          IF r.cyc THEN Stop(c, "cyclic")
          ELSE IF r.fail THEN Backtrack(Ev(c, "DoEqFail"))
          ELSE Ev([c EXCEPT !.goals = rest, !.s = r.s], "DoEq")
-    [] key = "\\=/2" ->
+    [] name = "\\=" ->
          LET r == MGU(args[1], args[2], c.s) IN
          IF r.cyc THEN Stop(c, "cyclic")
          ELSE IF r.fail THEN Ev([c EXCEPT !.goals = rest], "DoNeq")
          ELSE Backtrack(Ev(c, "DoNeqFail"))
-    [] t.n = "call" /\ Len(args) >= 1 ->
-         LET G == Walk(args[1], c.s) IN
+    [] name = "call" ->
+         IF args = <<>> THEN Stop(c, "unspec")
+         ELSE LET G == Walk(args[1], c.s) IN
          IF ~Callable(G) THEN Stop(c, "unspec")
          ELSE Ev([c EXCEPT !.goals = <<F(CallB(Mk(NameOf(G), ArgsOf(G) \o SubSeq(args, 2, Len(args)))), cb)>> \o rest],
                  "DoCallN")
-    [] key = "once/1" ->
+    [] name = "once" ->
          Ev([c EXCEPT !.goals = <<F(CallB(C("call", <<args[1]>>)), cb),
                                    F([b |-> "commit", B |-> Len(c.cps)], cb)>> \o rest], "DoOnce")
-    [] key = "findall/3" ->
+    [] name = "findall" ->
          LET k == Len(c.bags) + 1 IN
          Ev([c EXCEPT !.bags = Append(@, <<>>),
                       !.cps = Append(@, [kind |-> "findall", bag |-> k, L |-> args[3], rest |-> rest, s |-> c.s]),
                       !.goals = <<F(CallB(C("call", <<args[2]>>)), cb),
                                   F([b |-> "collect", k |-> k, t |-> args[1]], cb), F(FailB, cb)>>],
             "DoFindallStart")
-    [] key \in {"assertz/1", "asserta/1"} ->
+    [] name \in {"assertz", "asserta"} ->
          IF ~Callable(Walk(args[1], c.s)) THEN Stop(c, "unspec")
-         ELSE Ev(AssertF(c, args[1], key = "assertz/1", rest), IF key = "assertz/1" THEN "DoAssertz" ELSE "DoAsserta")
-    [] key = "retract/1" ->
+         ELSE Ev(AssertF(c, args[1], name = "assertz", rest), IF name = "assertz" THEN "DoAssertz" ELSE "DoAsserta")
+    [] name = "retract" ->
          LET pat == Resolve(args[1], c.s) IN
          IF ~Callable(pat) THEN Stop(c, "unspec")
          ELSE LET k2 == KeyOf(pat) IN
               TryRetract(Ev(c, "DoRetractStart"),
                          [kind |-> "retract", snap |-> Get(c.db, k2), i |-> 1, pat |-> pat, key |-> k2,
                           rest |-> rest, s |-> c.s])
-    [] key = "retractall/1" ->
+    [] name = "retractall" ->
          LET pat == Resolve(args[1], c.s) IN
          IF ~Callable(pat) THEN Stop(c, "unspec")
          ELSE LET k2 == KeyOf(pat)
@@ -279,10 +289,12 @@ Call(c, t, cb, rest) ==
               ELSE Ev([c EXCEPT !.goals = rest,
                                 !.db = Put(c.db, k2, SelectSeq(facts, LAMBDA f : MGU(Shift(f.term, c.nv), pat, c.s).fail))],
                       "DoRetractAll")
-    [] OTHER ->
-         TryAlts(IF t.n \in ApiNames THEN Ev(c, "DoCallReserved") ELSE c,
-                 [kind |-> "alts", snap |-> Get(c.db, key), i |-> 1, goal |-> t,
-                  D |-> DefsFor(c, t.n, Len(args)), rest |-> rest, s |-> c.s])
+
+Call(c, t, cb, rest) ==
+  IF ~Callable(t) THEN Stop(c, "unspec")
+  ELSE TryAlts(IF t.n \in ApiNames THEN Ev(c, "DoCallReserved") ELSE c,
+               [kind |-> "alts", snap |-> Get(c.db, KeyOf(t)), i |-> 1, goal |-> t,
+                D |-> DefsFor(c, t.n, Arity(t)), rest |-> rest, s |-> c.s])
 
 StepF(c) ==
   IF c.goals = <<>> THEN Ev([c EXCEPT !.status = "answer"], "DoAnswer")
